@@ -654,6 +654,16 @@ Definition apply (cfg : config) (st : state) (o : op) : state * Z * Z :=
 Definition next (cfg : config) (st : state) (o : op) : state := fst (fst (apply cfg st o)).
 Definition run (cfg : config) (st : state) (ops : list op) : state := fold_left (next cfg) ops st.
 
+(* histories that also contain validator slashes (environment transitions) *)
+Inductive eop := EOp (o : op) | ESlash (order : list (Z * Z)) (v factor : Z).
+Definition eapply (cfg : config) (st : state) (e : eop) : state * Z * Z :=
+  match e with
+  | EOp o => apply cfg st o
+  | ESlash order v f => match slash st order v f with Ok st' => (st', 0, 0) | Err x => (st, x, 0) end
+  end.
+Definition enext (cfg : config) (st : state) (e : eop) : state := fst (fst (eapply cfg st e)).
+Definition erun (cfg : config) (st : state) (es : list eop) : state := fold_left (enext cfg) es st.
+
 (* initial state: no locks, no accounts; validators, supply and offset as the chain has them after setup *)
 Definition vals_of (l : list (Z * validator)) : Z -> option validator :=
   fun v => match find (fun x => fst x =? v) l with Some x => Some (snd x) | None => None end.
